@@ -34,6 +34,14 @@
                                         program of strictly smaller cost has been yielded (recursive grammars too);
     * C12_Beap_filter_terminates_partial — |language| + 1 calls of `next` reach the end whenever the run returns;
     * no duplicates with a filter: C02_Beap_nodup (C02 part file).
+  THE MERGE HALF ON THE REPAIRED CODE (fix C12-F13, `Env.fixEmptied = true`; PS/Proofs/Enum/BeapM0..M7.lean):
+    * C12_Beap_merge_complete_partial — for every history of `next` / `merge_program` calls (merges after the first
+      `next`), when the generator has stopped every program all of whose sub-programs are accepted and were not merged
+      has been yielded (nothing that does not contain a merged program is lost);
+    * C12_Beap_merge_prefix_complete_partial — the same on every prefix;
+    * C12_Beap_merge_step — `merge_program` keeps the completeness invariants for the effective filter "accepted and
+      not merged".
+    The converse ("only those") is false: finding C12-F12 (open).
   Not proved: termination of one `next` call (existence of a sufficient fuel).
 -/
 import PS.Proofs.Enum.BeapFilter
